@@ -3,7 +3,7 @@
 From Coq Require Import List String Ascii ZArith NArith Bool.
 From QRB Require Import Base.Bytes Model.W Model.Values Model.Compile Model.Sexp Model.Decode.
 From QRB Require Import Meta.Regex Gen.Regex Model.WArgs Model.Wfe Pg.Lexer Model.JsonMap.
-From QRB Require Import Pg.Expr Model.XExp Model.C02Eval.
+From QRB Require Import Pg.Expr Pg.Stmt Model.XExp Model.C02Eval Model.C01Eval.
 Import ListNotations.
 Local Open Scope string_scope.
 
@@ -177,6 +177,33 @@ Definition handle (x : sexp) : string :=
           | VSkip why => "C02 skip " ++ why
           end
       | _, _ => "DECODEFAIL"
+      end
+  | SList [SAtom "c01"; e; s] =>
+      (* s = "-": use the model's own text *)
+      match decode_exp e, d_str s with
+      | Some e', Some s' =>
+          let v := if String.eqb s' "-" then c01_model valid_ident valid_type e' else c01_eval valid_ident valid_type e' s' in
+          let sv (v : sverdict) :=
+            match v with
+            | SOk => "ok"
+            | SMismatch c p cl => "mismatch s" ++ hex c ++ " s" ++ hex p ++ " " ++ join_with "," cl
+            | SReject c cl => "reject s" ++ hex c ++ " s " ++ join_with "," cl
+            | SSkip why => "skip " ++ why
+            end in
+          (* the top-level verdict, then one per nested statement (model text), separated by " | " *)
+          "C01 " ++ join_with " | " (sv v :: map sv (c01_nested valid_ident valid_type e'))
+      | _, _ => "DECODEFAIL"
+      end
+  | SList [SAtom "readstmt"; s] =>
+      match d_str s with
+      | Some s' => match pg_lex true s' with
+                   | Some ts => match pg_read_stmt ts with
+                                | Some c => "RS s" ++ hex (show_cn c)
+                                | None => "RS reject"
+                                end
+                   | None => "RS lexerr"
+                   end
+      | None => "DECODEFAIL"
       end
   | SList [SAtom "wfe"; e] =>
       match decode_exp e with Some e' => if wfe e' then "T" else "F" | None => "DECODEFAIL" end
